@@ -275,6 +275,13 @@ def check(case):
         return o.ok(nontrivial=False)
     # ---- clause: follow-up operations ----------------------------------------------------------------------
     Sfollow = max(1.0, lib.scale_of([[lib.xy(s.start), lib.xy(s.end)] for s in path]))
+    # (the requested error is relative to the size of what is measured: an arc can be far larger than the points it joins -
+    # radii of 1e36 between points 30 apart - and an absolute error below the resolution of such a length never converges)
+    for s in path:
+        if lib.kind_of(s) == "A":
+            for r in (s.rx, s.ry):
+                if isinstance(r, (int, float)) and r == r and abs(r) != float("inf"):
+                    Sfollow = max(Sfollow, abs(r))
     for name in FOLLOWUPS:
         try:
             do_followup(path, name, Sfollow)
